@@ -1,1 +1,55 @@
-(* stub: to be written *)
+(* C19 — library calls keep their call signature while being traced.
+   Only statements here; model and proofs live in theories/PySig.v.  The signatures themselves are not
+   modelled: harness/c19.py reads them with inspect.signature from the installed originals and from the
+   substitutes the converter installs on this run, and evaluates the proved procedure on every pair. *)
+From Coq Require Import String List.
+From J2O Require Import PySig.
+
+(* the binder model says what PEP 3102/570 says, per argument and per parameter *)
+Theorem C19_binds_spec : forall sig c, binds sig c = true <-> Binds sig c.
+Proof. exact binds_spec. Qed.
+Print Assumptions C19_binds_spec.
+
+(* a positive answer of the procedure covers ALL call forms: any number of positional arguments,
+   any keyword names *)
+Theorem C19_subsumes_sound : forall w o, wf_sig w -> wf_sig o -> sig_subsumes w o = true ->
+  forall c, NoDup (c_kws c) -> binds o c = true -> binds w c = true.
+Proof. exact subsumes_sound. Qed.
+Print Assumptions C19_subsumes_sound.
+
+(* the same without side conditions, and as an equivalence: the procedure is exact *)
+Theorem C19_subsumes_exact : forall w o,
+  sig_subsumes w o = true <-> (forall c, binds o c = true -> binds w c = true).
+Proof. exact subsumes_iff. Qed.
+Print Assumptions C19_subsumes_exact.
+
+(* a negative answer comes with a call form the original accepts and the substitute rejects *)
+Theorem C19_witness_sound : forall w o c,
+  subsumes_witness w o = Some c -> binds o c = true /\ binds w c = false.
+Proof. exact witness_sound. Qed.
+Print Assumptions C19_witness_sound.
+
+Theorem C19_witness_is_a_legal_call : forall w o c,
+  subsumes_witness w o = Some c -> NoDup (c_kws c).
+Proof. exact witness_nodup. Qed.
+Print Assumptions C19_witness_is_a_legal_call.
+
+Theorem C19_subsumes_complete : forall w o, sig_subsumes w o = false ->
+  exists c, subsumes_witness w o = Some c /\ NoDup (c_kws c) /\ binds o c = true /\ binds w c = false.
+Proof. exact subsumes_complete. Qed.
+Print Assumptions C19_subsumes_complete.
+
+(* all probes that are counterexamples: each is one, and there is none exactly when the procedure says yes *)
+Theorem C19_all_witnesses_sound : forall w o c,
+  In c (all_witnesses w o) -> NoDup (c_kws c) /\ binds o c = true /\ binds w c = false.
+Proof. exact all_witnesses_sound. Qed.
+Print Assumptions C19_all_witnesses_sound.
+
+Theorem C19_all_witnesses_nil_iff : forall w o, all_witnesses w o = nil <-> sig_subsumes w o = true.
+Proof. exact all_witnesses_nil_iff. Qed.
+Print Assumptions C19_all_witnesses_nil_iff.
+
+(* a substitute that forwards ( *args, **kwargs ) never rejects at binding time *)
+Theorem C19_forwarding_substitute_accepts_all : forall o, sig_subsumes ex_star o = true.
+Proof. exact star_subsumes_all. Qed.
+Print Assumptions C19_forwarding_substitute_accepts_all.
